@@ -329,4 +329,128 @@ theorem endRecord_finalOpen (r : ROpts) (b : St) (w : WOpts) (f : Field) (fl : L
       simp [commitRecord, startSt, mk, nextBase, h1]
       omega
 
+/-! ## the line break after a record -/
+
+theorem stepMain_nl (r : ROpts) (σ : St) (h : σ.fs ≠ .q) : stepMain r σ '\n' = onNl r σ .lf := by
+  unfold stepMain
+  cases hfs : σ.fs with
+  | q => exact absurd hfs h
+  | qe => simp
+  | unq => simp
+
+theorem stepMain_cr (r : ROpts) (σ : St) (h : σ.fs ≠ .q) :
+    stepMain r σ '\r' = .ok { σ with pcr := true } := by
+  unfold stepMain
+  cases hfs : σ.fs with
+  | q => exact absurd hfs h
+  | qe => simp
+  | unq => simp
+
+theorem step_of_not_pcr (r : ROpts) (σ : St) (c : Char) (h : σ.pcr = false) :
+    step r σ c = stepMain r σ c := by
+  unfold step
+  simp [h]
+
+theorem pcr_roundtrip (σ : St) (h : σ.pcr = false) : { { σ with pcr := true } with pcr := false } = σ := by
+  obtain ⟨fs, pcr, buf, fields, recs, fpr, dlb⟩ := σ
+  simp only at h
+  subst h
+  rfl
+
+theorem setDlb_fpr (b : St) (lb : LB) : (setDlb b lb).fpr = b.fpr := by
+  unfold setDlb
+  cases b.dlb <;> rfl
+
+theorem setDlb_recs (b : St) (lb : LB) : (setDlb b lb).recs = b.recs := by
+  unfold setDlb
+  cases b.dlb <;> rfl
+
+theorem onNl_finalOpen (r : ROpts) (b : St) (w : WOpts) (f : Field) (fl : List Field) (lb : LB)
+    (hok : RecOK f fl) (hn : b.fpr = 0 ∨ b.fpr = 1 + fl.length) :
+    onNl r (finalOpen b w [] f fl) lb
+      = .ok (startSt (nextBase (setDlb b lb) ((f :: fl).map (rawOf w))) []) := by
+  unfold onNl
+  rw [finalOpen_setDlb]
+  exact endRecord_finalOpen r (setDlb b lb) w f fl hok (by rw [setDlb_fpr]; exact hn)
+
+/-- what may follow a CR line break: at least one more character, and not a line feed -/
+def RestOK (lb : LB) (rest : List Char) : Prop :=
+  lb = .cr → ∃ c cs, rest = c :: cs ∧ c ≠ '\n'
+
+theorem run_lb_after_record (r : ROpts) (b : St) (w : WOpts) (f : Field) (fl : List Field) (lb : LB)
+    (rest : List Char)
+    (hok : RecOK f fl) (hn : b.fpr = 0 ∨ b.fpr = 1 + fl.length) (hrest : RestOK lb rest) :
+    run r (finalOpen b w [] f fl) (lb.chars ++ rest)
+      = run r (startSt (nextBase (setDlb b lb) ((f :: fl).map (rawOf w))) []) rest := by
+  have hp := finalOpen_pcr b w [] f fl
+  have hfs := finalOpen_fs b w [] f fl
+  cases lb with
+  | lf =>
+    simp only [LB.chars, List.cons_append, List.nil_append]
+    rw [run_cons, step_of_not_pcr r _ _ hp, stepMain_nl r _ hfs, onNl_finalOpen r b w f fl .lf hok hn]
+  | crlf =>
+    simp only [LB.chars, List.cons_append, List.nil_append]
+    rw [run_cons, step_of_not_pcr r _ _ hp, stepMain_cr r _ hfs]
+    simp only
+    rw [run_cons]
+    unfold step
+    simp only [if_true]
+    rw [pcr_roundtrip _ hp, onNl_finalOpen r b w f fl .crlf hok hn]
+  | cr =>
+    obtain ⟨c, cs, hrest, hc⟩ := hrest rfl
+    subst hrest
+    simp only [LB.chars, List.cons_append, List.nil_append]
+    rw [run_cons, step_of_not_pcr r _ _ hp, stepMain_cr r _ hfs]
+    simp only
+    rw [run_cons]
+    unfold step
+    simp only [if_true, hc, if_false]
+    rw [pcr_roundtrip _ hp, onNl_finalOpen r b w f fl .cr hok hn]
+    simp only
+    rw [run_cons, step_of_not_pcr r _ _ (by rfl)]
+
+theorem run_record_lb (r : ROpts) (w : WOpts) (b : St) (hrd : r.delim = w.delim) (hd : DelimOK r.delim)
+    (f : Field) (fl : List Field) (rest : List Char)
+    (hf : ∀ g ∈ f :: fl, FieldOK w g) (hok : RecOK f fl)
+    (hn : b.fpr = 0 ∨ b.fpr = 1 + fl.length) (hrest : RestOK w.lb rest) :
+    run r (startSt b []) (writeRecord w (f :: fl) ++ (w.lb.chars ++ rest))
+      = run r (startSt (nextBase (setDlb b w.lb) ((f :: fl).map (rawOf w))) []) rest := by
+  rw [run_append, run_writeRecord r w b hrd hd f fl hf hn]
+  simp only
+  exact run_lb_after_record r b w f fl w.lb rest hok hn hrest
+
+/-! ## the first character of a record -/
+
+theorem writeRecord_head (w : WOpts) (hd : DelimOK w.delim) (f : Field) (fl : List Field)
+    (hf : FieldOK w f) (hok : RecOK f fl) (tail : List Char) :
+    ∃ c cs, writeRecord w (f :: fl) ++ tail = c :: cs ∧ c ≠ '\n' := by
+  simp only [writeRecord]
+  unfold writeField
+  by_cases hq : mustQuote w f = true
+  · simp only [hq, if_true]
+    exact ⟨'"', _, rfl, by decide⟩
+  · have hq' : mustQuote w f = false := by simpa using hq
+    simp only [hq', Bool.false_eq_true, if_false]
+    have hlb : includesLineBreak f.contents = false := by
+      rcases hf with h | h
+      · exact absurd h hq
+      · exact h
+    cases hc : f.contents with
+    | cons x xs =>
+      refine ⟨x, _, rfl, ?_⟩
+      rw [hc] at hlb
+      simp only [includesLineBreak] at hlb
+      split at hlb
+      · cases hlb
+      · rename_i h
+        exact fun e => h (Or.inr e)
+    | nil =>
+      rcases hok with h | h
+      · cases fl with
+        | nil => exact absurd rfl h
+        | cons g gs =>
+          refine ⟨w.delim, _, rfl, ?_⟩
+          exact hd.2.2
+      · exact absurd hc h
+
 end Csvq.Csv
